@@ -309,8 +309,60 @@ def rule_r7(ctx) -> RuleResult:
     return rr
 
 
+def rule_r8(ctx) -> RuleResult:
+    """Derived tag tables are computed from the final tag table."""
+    rr = RuleResult("C03.R8", "tables derived from allowed_html_tags are computed after its last update in the constructor", min_instances=2)
+    init = ctx.fn("core.Wtp.__init__")
+    CORE = "src/wikitextprocessor/core.py"
+    # statements that write self.allowed_html_tags
+    writes = []
+    for n in ast.walk(init):
+        if isinstance(n, (ast.Assign, ast.AnnAssign)):
+            t = n.targets[0] if isinstance(n, ast.Assign) else n.target
+            if unparse(t) == "self.allowed_html_tags":
+                writes.append(n)
+        if isinstance(n, ast.Call) and isinstance(n.func, ast.Attribute) and unparse(n.func.value) == "self.allowed_html_tags" \
+                and n.func.attr in ("update", "setdefault", "pop", "clear", "__setitem__"):
+            writes.append(n)
+        if isinstance(n, ast.Assign) and isinstance(n.targets[0], ast.Subscript) and unparse(n.targets[0].value) == "self.allowed_html_tags":
+            writes.append(n)
+    if not writes:
+        raise AnalysisError("Wtp.__init__: no write of self.allowed_html_tags found")
+    last_write = max(w.end_lineno for w in writes)
+    # readers: statements of __init__ whose value depends on allowed_html_tags, directly or through f(self)
+    readers = []
+    for n in ast.walk(init):
+        if isinstance(n, (ast.Assign, ast.AnnAssign)) and getattr(n, "value", None) is not None:
+            t = n.targets[0] if isinstance(n, ast.Assign) else n.target
+            if unparse(t) == "self.allowed_html_tags":
+                continue
+            v = n.value
+            direct = any(isinstance(x, ast.Attribute) and x.attr == "allowed_html_tags" for x in ast.walk(v))
+            via = None
+            for c in ast.walk(v):
+                if isinstance(c, ast.Call) and isinstance(c.func, ast.Name) and any(unparse(a) == "self" for a in c.args):
+                    for mn in ("parser", "core"):
+                        if ctx.index.has_func(mn + "." + c.func.id):
+                            callee = ctx.index.func(mn + "." + c.func.id)
+                            if any(isinstance(x, ast.Attribute) and x.attr == "allowed_html_tags" for x in ast.walk(callee)):
+                                via = c.func.id
+            if direct or via:
+                readers.append((n, unparse(t), via))
+    if len(readers) < 2:
+        raise AnalysisError("Wtp.__init__: derived tag tables not found ({} readers)".format(len(readers)))
+    for n, tgt, via in readers:
+        label = "{} = {}".format(tgt, (via + "(self)") if via else "f(self.allowed_html_tags)")
+        if n.lineno > last_write:
+            rr.ok("core.Wtp.__init__", label, {"derived": tgt, "computed_after_line": last_write})
+        else:
+            rr.bad(Finding("C03.R8", CORE, "core.Wtp.__init__", label,
+                           "`{}` is derived from allowed_html_tags before the table receives its last update (extension_tags): tags registered by "
+                           "the caller are accepted by tag_fn but missing from the derived table, so nesting with them is mis-parsed".format(tgt), n.lineno))
+    return rr
+
+
 def run(ctx) -> list:
     rules = [rule_r1(ctx), rule_r2(ctx), rule_r3(ctx)]
     rules.append(rule_r4(ctx))
-    rules += [rule_r5(ctx), rule_r6(ctx), rule_r7(ctx)]
+    rules += [rule_r5(ctx), rule_r6(ctx), rule_r7(ctx), rule_r8(ctx)]
     return rules
